@@ -17,7 +17,7 @@ META = dict(
           "Alignment.disorder (from carried values), compute_disorder and UnitaryAlignment.compute_disorder agree with it and with each other, none "
           "depends on the listing order; best and soft alignments returned by the library carry exactly those values.",
     trusted="z3; real arithmetic instead of float32; independent definition in harness/common.py",
-    bounds=dict(quick="n in {2,3,4} annotators, 1..2 unitary alignments, all empty-slot patterns, 3 listing orders per pattern (identity, reversed, rotated), "
+    bounds=dict(quick="(+ returned best / soft alignments under the real combined dissimilarity with unlabelled and ''-labelled units, and under a declared-superset categorical component, (2,1)) n in {2,3,4} annotators, 1..2 unitary alignments, all empty-slot patterns, 3 listing orders per pattern (identity, reversed, rotated), "
                       "with / without continuum; returned alignments: best and soft on (2,1),(2,2),(1,1,1)",
                 thorough="+ n = 5 with 1..2 unitary alignments, n <= 4 with 3 unitary alignments, all n! listing orders for n <= 4"),
     outside="float32 accumulation error; alignments with more than 3 unitary alignments (the kernel loop is per unitary alignment, independent)",
@@ -37,6 +37,14 @@ def configs(tier):
     for s in [(2, 1), (2, 2), (1, 1, 1)]:
         for mode in ("best", "soft"):
             out.append(dict(key=f"returned-{mode},sizes={s}", sizes=list(s), mode=mode, dissim="abstract", backend="cbc", cost=500))
+    # real dissimilarities on continua with unlabelled and ''-labelled units (the recompute path builds its own arrays)
+    for lab in ("mixed", "empty-string", "none"):
+        out.append(dict(key=f"returned-best,sizes=(2, 1),combined-fixedcoords,labels={lab}", sizes=[2, 1], mode="best", dissim="combined", labels=lab, coords="fixed",
+                        backend="cbc", cost=300))
+    out.append(dict(key="returned-soft,sizes=(2, 1),combined-fixedcoords,labels=mixed", sizes=[2, 1], mode="soft", dissim="combined", labels="mixed", coords="fixed",
+                    backend="cbc", cost=300))
+    out.append(dict(key="returned-best,sizes=(2, 1),combined-declared-superset-fixedcoords", sizes=[2, 1], mode="best", dissim="combined-declared", labels="declared-bd",
+                    coords="fixed", backend="cbc", cost=300))
     if tier == "thorough":
         for n, k in [(5, 1), (5, 2), (2, 3), (3, 3), (4, 3)]:
             for cont in (False, True):
